@@ -1,2 +1,78 @@
-From ZC Require Import Model.Base Model.OutQueue.
-Example C12_placeholder : True. Proof. exact I. Qed.
+(* C12 - reply timing: jitter, aggregation, one-second protection. Statements only.
+   Model/OutQueue.v: MulticastOutgoingQueue as a labelled transition system (QAdd = async_add at arrival, QFire = a pending
+   loop.call_at timer running async_ready), tied to the real class on the virtual-time loop by the correspondence check.
+   The two instances of the code: (additional, aggregation) = (0, 500) for ordinary answers and (1000, 200) for records
+   multicast less than a second ago. *)
+From ZC Require Import Model.Base Model.Dict Model.OutQueue Proofs.C12_lemmas Proofs.C12_queue.
+From Coq Require Import Sorted.
+
+(* a non-empty queue always has a wake-up pending no later than its head's deadline; send_after strictly increases along it *)
+Theorem C12_timer_inv : forall additional aggregation ls q tr,
+  120 <= aggregation -> Forall add_ok ls ->
+  qrun (oq_init additional aggregation) ls [] = Some (q, tr) ->
+  (forall g0 r, q_groups q = g0 :: r -> exists d, In d (q_timers q) /\ d <= g_before g0) /\
+  StronglySorted after_lt (q_groups q) /\
+  Forall (fun g => g_after g <= g_before g) (q_groups q).
+Proof. exact timer_inv. Qed.
+
+(* the window for an answer requested once: when timers run punctually and the queue is followed until it is drained, the
+   record is multicast, and every batch carrying it leaves within [arrival + 20 + additional, arrival + aggregation + additional] *)
+Theorem C12_window : forall additional aggregation t0 ls pre now rnd a post q tr k,
+  120 <= aggregation -> ls = pre ++ QAdd now now rnd a :: post ->
+  times_sorted t0 ls -> Forall add_ok ls -> punctual_run (oq_init additional aggregation) ls ->
+  qrun (oq_init additional aggregation) ls [] = Some (q, tr) -> q_groups q = [] -> In k (keys a) ->
+  (forall l, In l pre \/ In l post -> ~ mentions k l) ->
+  (exists s b, In (s, b) tr /\ In k (keys b)) /\
+  (forall s b, In (s, b) tr -> In k (keys b) -> now + 20 + additional <= s <= now + aggregation + additional).
+Proof. exact reply_window. Qed.
+
+(* ordinary answers: 20..500 ms after the query; records seen less than a second ago: 1020..1200 ms *)
+Theorem C12_out_queue : forall t0 ls pre now rnd a post q tr k,
+  ls = pre ++ QAdd now now rnd a :: post ->
+  times_sorted t0 ls -> Forall add_ok ls -> punctual_run (oq_init 0 500) ls ->
+  qrun (oq_init 0 500) ls [] = Some (q, tr) -> q_groups q = [] -> In k (keys a) ->
+  (forall l, In l pre \/ In l post -> ~ mentions k l) ->
+  (exists s b, In (s, b) tr /\ In k (keys b)) /\
+  (forall s b, In (s, b) tr -> In k (keys b) -> now + 20 <= s <= now + 500).
+Proof. exact instance_out_queue. Qed.
+
+Theorem C12_protected : forall t0 ls pre now rnd a post q tr k,
+  ls = pre ++ QAdd now now rnd a :: post ->
+  times_sorted t0 ls -> Forall add_ok ls -> punctual_run (oq_init 1000 200) ls ->
+  qrun (oq_init 1000 200) ls [] = Some (q, tr) -> q_groups q = [] -> In k (keys a) ->
+  (forall l, In l pre \/ In l post -> ~ mentions k l) ->
+  (exists s b, In (s, b) tr /\ In k (keys b)) /\
+  (forall s b, In (s, b) tr -> In k (keys b) -> now + 1020 <= s <= now + 1200).
+Proof. exact instance_out_delay_queue. Qed.
+
+(* aggregation: with several requests every requested record still leaves by its own deadline (upper bound, any number of
+   requests), and never before the jitter of some request that asked for it (lower bound, no hypothesis on the run) *)
+Theorem C12_upper : forall additional aggregation, 120 <= aggregation ->
+  forall t0 ls pre now rnd a post q tr k,
+  ls = pre ++ QAdd now now rnd a :: post ->
+  times_sorted t0 ls -> Forall add_ok ls -> punctual_run (oq_init additional aggregation) ls ->
+  qrun (oq_init additional aggregation) ls [] = Some (q, tr) -> q_groups q = [] -> In k (keys a) ->
+  exists mid l post' s b, post = mid ++ l :: post' /\
+    emits (oq_init additional aggregation) (pre ++ QAdd now now rnd a :: mid) l s b /\
+    In k (keys b) /\ now <= s <= now + aggregation + additional.
+Proof. exact window_upper. Qed.
+
+Theorem C12_lower : forall additional aggregation pre l s b k,
+  emits (oq_init additional aggregation) pre l s b -> In k (keys b) ->
+  exists now tnow rnd a, In (QAdd now tnow rnd a) pre /\ In k (keys a) /\ now + rnd + additional <= s.
+Proof. exact window_lower. Qed.
+
+(* never duplicated within a batch; once sent a record is dropped from every pending group *)
+Theorem C12_no_dup : forall additional aggregation pre l s b q e q',
+  Forall dict_ok pre -> qrun (oq_init additional aggregation) pre [] = Some (q, e) ->
+  qstep q l = Some (q', Some (s, b)) ->
+  NoDup (keys b) /\ forall g k, In g (q_groups q') -> In k (keys b) -> ~ In k (keys (g_answers g)).
+Proof. exact no_dup_partial. Qed.
+
+Print Assumptions C12_timer_inv.
+Print Assumptions C12_window.
+Print Assumptions C12_out_queue.
+Print Assumptions C12_protected.
+Print Assumptions C12_upper.
+Print Assumptions C12_lower.
+Print Assumptions C12_no_dup.
